@@ -93,6 +93,32 @@ let wm_search s0 depth maxc =
   go s0 depth [];
   (!found, !states)
 
+
+(* ---- concurrent queue model (Model/QueueConc.v): replay of a real trace ----
+   qcr <cap> P v,v,.. [P ...] C <npops> E <t>:<b> ...
+   t = 0 consumer, 1 close, p+2 producer p; b = 1: the real compare-exchange failed.  Before an
+   event of a producer the model performs that producer's steps that have no shared-memory access
+   in the code (the Closed return after a load of a closed enqueue_pos, the Full return after a
+   stamp that is behind).  One summary per event: enq,closed,deq/stamp,stamp,... *)
+let qc_summary s =
+  Printf.sprintf "%d,%d,%d/%s" (int_of_nat s.enq) (if x_cq_closed s then 1 else 0) (int_of_nat s.deq)
+    (String.concat "," (List.map (fun (st, _) -> string_of_int (int_of_nat st)) s.slots))
+let qc_silent s i =
+  (* producer i is at a step of the model that corresponds to no shared access of the code *)
+  match List.nth_opt s.prods i with
+  | None -> false
+  | Some p ->
+      p.pvals <> [] &&
+      (let pc = int_of_nat p.ppc in
+       (pc = 1 && p.pclo) ||
+       (pc = 2 && int_of_nat p.pst < 2 * int_of_nat p.ppos))
+let rec qc_flush s i =
+  if qc_silent s i then
+    (match cq_step s (nat_of_int (i + 2)) false with Some s' -> qc_flush s' i | None -> s)
+  else s
+let pres_str = function PrOk -> "ok" | PrFull -> "full" | PrClosed -> "closed"
+let cres_str = function CrVal v -> "v" ^ string_of_int (int_of_z v) | CrEmpty -> "empty" | CrClosed -> "closed"
+
 (* ---- pq ---- *)
 let pq_op_of tok =
   match split_on ',' tok with
@@ -295,6 +321,33 @@ let run_case line =
       (match x_ts_check (k = "f") (List.map top_of ops) with
        | None -> "OK"
        | Some i -> "BAD-AT " ^ string_of_int (int_of_nat i))
+  | "qcr" :: cap :: ws ->
+      let rec pvs acc = function
+        | "P" :: l :: r -> pvs ((List.map (fun x -> z_of_int (ios x)) (List.filter (fun x -> x <> "") (split_on ',' l))) :: acc) r
+        | r -> (List.rev acc, r) in
+      let (pv, r) = pvs [] ws in
+      (match r with
+       | "C" :: npops :: "E" :: evs ->
+           let s0 = cq_init (nat_of_int (ios cap)) pv (nat_of_int (ios npops)) in
+           let out = Buffer.create 256 in
+           let s = List.fold_left (fun s ev ->
+               match split_on ':' ev with
+               | [t; b] ->
+                   let t = ios t in
+                   let s = if t >= 2 then qc_flush s (t - 2) else s in
+                   (match cq_step s (nat_of_int t) (b = "1") with
+                    | Some s' -> Buffer.add_string out (qc_summary s' ^ " "); s'
+                    | None -> Buffer.add_string out "X "; s)
+               | _ -> failwith "qcr event") s0 evs in
+           let s = List.fold_left (fun s i -> qc_flush s i) s (List.init (List.length pv) (fun i -> i)) in
+           Buffer.add_string out ("| " ^ qc_summary s ^ " | ");
+           Buffer.add_string out (String.concat " ; " (List.map (fun p -> String.concat " " (List.rev_map pres_str p.pout)) s.prods));
+           Buffer.add_string out (" | " ^ String.concat " " (List.rev_map cres_str s.con.cout));
+           Buffer.add_string out (" | " ^ String.concat " " (List.map (fun v -> string_of_int (int_of_z v)) (x_cq_log s)));
+           Buffer.add_string out (" | " ^ String.concat " " (List.map (fun v -> string_of_int (int_of_z v)) s.popped));
+           Buffer.add_string out (" | " ^ string_of_int (int_of_nat s.cerr));
+           Buffer.contents out
+       | _ -> failwith "qcr: C n E ...")
   | "wm" :: ws ->
       let (s0, rest) = wm_parse ws in
       (match rest with
